@@ -535,6 +535,7 @@ harnesses! {
     #[kani::unwind(6)] fn c02_pos_ls4_closed_g3(s) { pos_ls4_closed(s, 3, false) }
     #[kani::unwind(6)] fn c02_pos_ls4_closed_g1_full(s) { pos_ls4_closed(s, 1, true) }
     #[kani::unwind(6)] fn c02_pos_ls4_open_g2(s) { pos_ls4_open(s, 2, false) }
+    #[kani::unwind(6)] fn c02_pos_poly3_g2(s) { pos_poly3(s, 2, false) }
     #[kani::unwind(6)] fn c02_pos_poly3_g3(s) { pos_poly3(s, 3, false) }
     #[kani::unwind(6)] fn c02_pos_poly3_g1_full(s) { pos_poly3(s, 1, true) }
     #[kani::unwind(7)] fn c02_pos_poly4_g2(s) { pos_poly4(s, 2, false) }
@@ -547,7 +548,11 @@ harnesses! {
     #[kani::unwind(10)] fn c02_pos_mpoly_touching(s) { pos_mpoly(s, 4, true) }
     #[kani::unwind(10)] fn c02_pos_mpoly_apart(s) { pos_mpoly(s, 4, false) }
 
+    fn c02_int_line_line_g3(s) { int_line_line(s, 3) }
     fn c02_int_line_line_g4(s) { int_line_line(s, 4) }
+    #[kani::unwind(6)] fn c02_int_line_rect_g1_x0(s) { int_line_rect(s, 1, -1) }
+    #[kani::unwind(6)] fn c02_int_line_rect_g1_x1(s) { int_line_rect(s, 1, 0) }
+    #[kani::unwind(6)] fn c02_int_line_rect_g1_x2(s) { int_line_rect(s, 1, 1) }
     #[kani::unwind(6)] fn c02_int_line_rect_g2_x0(s) { int_line_rect(s, 2, -2) }
     #[kani::unwind(6)] fn c02_int_line_rect_g2_x1(s) { int_line_rect(s, 2, -1) }
     #[kani::unwind(6)] fn c02_int_line_rect_g2_x2(s) { int_line_rect(s, 2, 0) }
